@@ -68,7 +68,7 @@ fn main() {
             if args.iter().any(|a| a == "--plan") {
                 println!("{}", serde_json::to_string_pretty(&plan).unwrap());
             }
-            let r = driver::run_one(&prop, &plan, dsim::Tape::search(seed));
+            let r = driver::run_one(&prop, &plan, dsim::Tape::search(plan.seed));
             let max = if args.iter().any(|a| a == "--full") { usize::MAX } else { 200 };
             for l in driver::render_trace(&r.out, max) {
                 println!("{}", l);
